@@ -678,6 +678,7 @@ struct Gen<'a> {
     bursts: u32,
     burst_ok: bool,
     in_poll: bool,
+    cur_task: Option<Slot>,
 }
 
 impl<'a> Gen<'a> {
@@ -748,6 +749,22 @@ impl<'a> Gen<'a> {
         let mut body: Vec<Op> = vec![];
         if self.in_poll && self.rng.pct(15) {
             body.push(Op::HoldChild);
+        }
+        if self.in_poll && self.rng.pct(12) {
+            // nested adapters: poll another live task from inside this body
+            let others: Vec<Slot> = self.tasks(true).into_iter().filter(|t| Some(*t) != self.cur_task).collect();
+            if !others.is_empty() {
+                let task = *self.rng.pick(&others);
+                if let SlotM::Task(tk) = self.model.slot_ref(task) {
+                    let kind = match tk.wrap {
+                        Wrap::Stream => PollKind::PollNextItem,
+                        Wrap::Sink => PollKind::PollFlush,
+                        _ => PollKind::Poll,
+                    };
+                    let ready = self.rng.pct(25);
+                    body.push(Op::Poll { task, kind, ready });
+                }
+            }
         }
         let n = self.rng.below(4);
         for _ in 0..n {
@@ -942,7 +959,7 @@ impl<'a> Gen<'a> {
                 let slot = *self.rng.pick(&live);
                 match k {
                     K::AddProps => {
-                        let n = 1 + self.rng.below(3) as u8;
+                        let n = if self.rng.pct(8) { 0 } else { 1 + self.rng.below(3) as u8 };
                         let inner = self.maybe_inner(n);
                         self.push_inner(t, Op::AddProps { slot, n }, inner)
                     }
@@ -1019,7 +1036,7 @@ impl<'a> Gen<'a> {
                 self.push_inner(t, Op::LocalWithProps { n }, inner)
             }
             K::LocalAddProps => {
-                let n = 1 + self.rng.below(2) as u8;
+                let n = if self.rng.pct(8) { 0 } else { 1 + self.rng.below(2) as u8 };
                 let inner = self.maybe_inner(n);
                 self.push_inner(t, Op::LocalAddProps { n }, inner)
             }
@@ -1130,8 +1147,10 @@ impl<'a> Gen<'a> {
                 };
                 let ready = self.rng.pct(30);
                 self.in_poll = true;
+                self.cur_task = Some(task);
                 let body = self.gen_body();
                 self.in_poll = false;
+                self.cur_task = None;
                 self.push_inner(t, Op::Poll { task, kind, ready }, body)
             }
             K::DropTask => {
@@ -1359,6 +1378,7 @@ pub fn generate_with(p: &Profile, seed: u64) -> Case {
         bursts: 0,
         burst_ok: false,
         in_poll: false,
+        cur_task: None,
     };
     // limit-overflow bursts are expensive (10k spans / 4k scopes): a few per cent of the runs
     g.burst_ok = g.rng.pct(4);
